@@ -1,11 +1,10 @@
-\* C16 quick, liveness under weak fairness: the destructor returns; cancelled children are reaped
+\* vacuity: addJob without notify_one - TLC must report a deadlock (client waiting, lane asleep, job queued)
 CONSTANTS
   DtorWaitsBackground = TRUE
-  NotifyOnAdd = TRUE
+  NotifyOnAdd = FALSE
   DrainPriority = TRUE
   MCConfig = 0
-  Scenarios <- LiveQuickScenarios
+  Scenarios <- VacNotifyScenarios
 SPECIFICATION MCSpecSet
 INVARIANTS AtMostOnce ExactlyOnce LaneBound BgBound CompletionOnce OutputBeforeCompletion StatusTable ChildrenReaped
-PROPERTY Termination
-PROPERTY CancelReaps
+PROPERTY NoSpawnAfterCancel
